@@ -167,6 +167,14 @@ def plan(tier, seed):
     per = 2 if tier == "quick" else 8
     for i in range(0, len(cf), per):
         sh.append({"kind": "coldfocus", "trials": cf[i : i + per], "tier": tier, "_name": f"coldfocus-{i // per}"})
+    # first use of the third-party country database (loaded lazily by pycountry, inside one line of the package):
+    # the first caller is preempted at its K-th step *inside pycountry*
+    rngc = env.rng("C14", "thirdparty")
+    cids = [i for i, d in enumerate(p) if d["fn"] in ("bic", "bic_country", "iban_country", "from_bank_code", "bic_lookup")]
+    tks = [3, 10, 40, 150, 400, 900, 1500, 2200, 3000] if tier == "quick" else sorted(set(range(1, 3200, 40)))
+    tp = [(k_, [tuple(rngc.sample(cids, 2))]) for k_ in tks]
+    for i in range(0, len(tp), 3):
+        sh.append({"kind": "coldfocus", "trials": tp[i : i + 3], "focus": "/pycountry/", "tier": tier, "_name": f"coldfocus-thirdparty-{i // 3}"})
     for s_ in sh:
         s_["pool_file"] = pf
     sh[0]["_cleanup"] = [pf]
@@ -795,10 +803,15 @@ def run_coldfocus(shard, mon, S, p):
         "calls.capture_warnings()\n"
         "p = json.load(open(sys.argv[1]))\n"
         "k = int(sys.argv[2]); pairs = json.loads(sys.argv[3])\n"
-        "s = Scheduler(env.PKG, 'line'); s.install()\n"
+        "focus = sys.argv[4]\n"
+        "extra = []\n"
+        "if focus == '/pycountry/':\n"
+        "    import importlib.util, os\n"
+        "    extra = [os.path.dirname(importlib.util.find_spec('pycountry').origin)]\n"
+        "s = Scheduler(env.PKG, 'line', extra_roots=extra); s.install()\n"
         "out = []\n"
         "for a, b in pairs:\n"
-        "    r = s.run([lambda: calls.execute(S, p[a]), lambda: calls.execute(S, p[b])], first=0, focus='/checksum/', preempt_focus={(0, k)}, timeout=60)\n"
+        "    r = s.run([lambda: calls.execute(S, p[a]), lambda: calls.execute(S, p[b])], first=0, focus=focus, preempt_focus={(0, k)}, timeout=120)\n"
         "    out.append({'results': r['results'], 'focus_steps': r['focus_steps'], 'switches': r['switches'], 'degraded': r['degraded'], 'hung': r['hung']})\n"
         "    if r['hung']:\n"
         "        break\n"
@@ -808,7 +821,7 @@ def run_coldfocus(shard, mon, S, p):
     e = dict(os.environ, PYTHONPATH=env.VERIF, PYTHONHASHSEED="0", PYTHONDONTWRITEBYTECODE="1")
     for k, pairs in shard["trials"]:
         try:
-            pr = subprocess.run([env.PY, "-c", code, shard["pool_file"], str(k), json.dumps(pairs)], env=e, capture_output=True, text=True, timeout=600)
+            pr = subprocess.run([env.PY, "-c", code, shard["pool_file"], str(k), json.dumps(pairs), shard.get("focus", "/checksum/")], env=e, capture_output=True, text=True, timeout=600)
             docs = json.loads(pr.stdout.strip().splitlines()[-1])
         except Exception as ex:  # noqa: BLE001
             mon.inconclusive.append(f"first-use trial process did not finish: {ex!r}"[:200])
@@ -821,7 +834,7 @@ def run_coldfocus(shard, mon, S, p):
                 continue
             if doc["focus_steps"][0] >= k and doc["switches"]:
                 # the preemption point was reached: the first caller was suspended inside the checksum modules
-                mon.tally("first_use_trials_preempted_inside_algorithm")
+                mon.tally("first_use_trials_preempted_inside_algorithm" if shard.get("focus", "/checksum/") == "/checksum/" else "first_use_trials_preempted_inside_third_party_code")
                 mon.distinct(("coldfocus", a, b, k))
             for w_, i in enumerate((a, b)):
                 out = doc["results"][w_]
@@ -932,7 +945,7 @@ def run_afterfail(shard, mon, S, p):
 
 def run_solo(shard, mon, S, p):
     sz = SIZES[shard["tier"]]
-    ids = sorted({i for k in range(sz["cold"]) for i in cold_ids(p, k)} | {i for a, b, _ in coldsched_trials(p, shard["tier"]) + coldfirst_trials(p, shard["tier"]) for i in (a, b)} | {i for _, prs in coldfocus_trials(p, shard["tier"]) for ab in prs for i in ab})
+    ids = sorted({i for k in range(sz["cold"]) for i in cold_ids(p, k)} | {i for a, b, _ in coldsched_trials(p, shard["tier"]) + coldfirst_trials(p, shard["tier"]) for i in (a, b)} | {i for _, prs in coldfocus_trials(p, shard["tier"]) for ab in prs for i in ab} | {i for i, d in enumerate(p) if d["fn"] in ("bic", "bic_country", "iban_country", "from_bank_code", "bic_lookup")})
     outs = {i: calls.execute(S, p[i]) for i in ids}
     mon.ev(len(ids))
     mon.distinct(("solo", len(ids)))
